@@ -11,7 +11,8 @@ NOTES = ("Technique family: static analysis. A rustc_private driver (driver/, ni
 
 ENGINES = [
     {"name": "linfa-facts", "path": "driver/", "serves_properties": [], "kind_free_text": "rustc_private compiler driver: typed HIR + MIR + item facts as JSON"},
-    {"name": "sym", "path": "rules/sym.py", "serves_properties": [], "kind_free_text": "symbolic value numbering over typed HIR (polynomial normal form, slice regions, guard stacks)"},
+    {"name": "sym", "path": "rules/sym.py", "serves_properties": [], "kind_free_text": "symbolic value numbering over typed HIR (polynomial normal form, slice regions, guard stacks, wrapper inlining)"},
+    {"name": "shared-analyses", "path": "rules/", "serves_properties": [], "kind_free_text": "influence.py (per-path data dependence), linalg.py (non-commutative normal form), calc.py (rational functions, symbolic derivative), layout.py / inplace.py / rowindex.py / stale.py / cancel.py / extrema.py / units.py / lse.py / taint.py (structural rules shared by several properties)"},
 ]
 
 _T = "static analysis over compiler-resolved facts (typed HIR/MIR from a rustc_private driver)"
@@ -24,6 +25,7 @@ CLAIMED = {
                 "training view is the complement of the validation block; the fold size derives from a sample count and ChunksIter cuts block i as rows [i*size, (i+1)*size) and stops after "
                 "len/size blocks; "
                 "cross_validate accumulates once per (fold, model) and divides by k; fit/eval errors propagate. The row widths that cut the raw buffers (ntargets, nfeatures) depend on the target / record arrays on every path, never on the name lists; fold's chunk lists cover every sample (a truncated chunk sequence needs the left-over rows put back under the test 'rows are left over'). "
+            "DatasetBase::nsamples depends on the records only (never on the weights). "
             "Not decided: "
                 "numeric block boundaries for particular (n,k), multiset equality of rows.",
         "design_ref": "DESIGN.md section 4, C01",
@@ -42,6 +44,7 @@ CLAIMED["C02"] = {
             "name at the collapsed index; the raw-buffer split of owned data is dominated by a standard-layout test; every index vector handed to select(Axis(a), ..) is a permutation of, or draws "
             "from, exactly 0..extent(a), and the ratio split point is ceil(nsamples as f32 * ratio). Raw memory-order buffers (as_slice_memory_order, into_raw_vec, as_ptr) anywhere in the dataset and composing code are used by position only behind an is_standard_layout() test (or on arrays created in the same function), and exact-chunk iteration never drops a remainder. "
             "Records::nsamples / nfeatures of an array are axis extents on every path (a (0, k) matrix has k features); binary_search never runs directly on a caller-supplied slice. "
+            "CountedTargets values are built by counting the targets they wrap (CountedTargets::new, or a count incremented in the same loop that collects them). "
             "Not decided: multiset equality of rows as values.",
     "design_ref": "DESIGN.md section 4, C02",
     "note": "Trusted: rustc resolution/typeck, the fact dump, documented semantics of ndarray selection methods and Vec::split_off.",
@@ -72,6 +75,7 @@ CLAIMED["C04"] = {
             "Range tests are evaluated on the parameter itself, not on a narrowed copy (to_f32, as f32, to integer). "
             "No computation on a predict path branches on the number of rows of the batch (other than an exit); required trait methods called on a generic Self are followed into every implementation; the multi-class incumbent label is a member's label from the start. "
             "Builder methods store their arguments unchanged (no clamp / filter / rounding / arithmetic between argument and field), and builder methods that rebuild the parameter struct (with_rng) carry every field over from self. "
+            "An unsigned parameter is not subtracted from before it is tested (overflow instead of the documented error). "
             "Not decided: behaviour of training on valid parameters.",
     "design_ref": "DESIGN.md section 4, C04",
     "note": "Trusted: rustc resolution/typeck, the fact dump, the documented range table frozen in rules/c04.py (one source reference per row). NaN/infinite parameter values are outside the claim, as in the property.",
@@ -88,6 +92,7 @@ CLAIMED["C07"] = {
             "`distance` of degree 1 in the coordinate differences on every branch and rdistance / rdist_to_dist / dist_to_rdist "
             "consistent with one reduced degree (a squared distance returned as a distance is degree 2); no query answers Ok before its dimension test. Raw memory-order buffers of the stored batch are used by position only behind a standard-layout test. "
             "A ball-tree node's radius is computed over every point of the node; rdistance overrides that delegate to another metric inherit that metric's reduced degree, and exponents that are truncated copies of the metric's exponent are rejected; coordinate differences carry the unit of distances. "
+            "No distance in linfa-nn is computed through the expanded square |a|^2 + |b|^2 - 2<a,b> (cancellation-prone away from the origin, so that path would disagree with the ones using the metric's rdistance). "
             "Not decided: geometric sufficiency of pruning bounds, k-NN ties.",
     "design_ref": "DESIGN.md section 4, C07",
     "note": "Trusted: rustc resolution/typeck, the fact dump (also of the locked kdtree dependency), consistency of each metric's four Distance methods.",
@@ -151,6 +156,7 @@ CLAIMED["C12"] = {
             "(with and without intercept) the value of each loss / gradient function and of the optimiser's cost/gradient adapters is "
             "computed from the penalty strength alpha - a path-enumerating influence analysis; log-sum-exp shifts per row; no "
             "quotient has an unguarded exponential of the score above and below the line. For every link, inverse_derivative is the symbolic derivative of inverse (element-wise maps read into rational functions over x, exp, ln and differentiated by a small computer algebra), so the chain rule in the gradient differentiates the function the cost evaluates. "
+            "Every value path of the unit-deviance derivative is computed from the predicted mean; the L-BFGS solver is configured with the gradient tolerance only (no cost-change stopping rule). "
             "Not decided: stationarity of the "
             "returned point beyond these necessary conditions, numeric range of probabilities.",
     "design_ref": "DESIGN.md section 4, C12",
@@ -180,6 +186,7 @@ CLAIMED["C18"] = {
             "non-commutative normal form over dot/+/-/t, exactly x.E^T.E - m.E^T.E + m, the projection about the mean; the variance ratio does not inherit a divisor that "
             "vanishes for one component. "
             "Pca::predict_inplace overwrites the caller's buffer (no accumulation into it); no field of the fitted model is computed from another stored field that is mutated (whitening rescale) before the model is built. "
+            "Every value path of explained_variance_ratio is computed from the singular values; DatasetBase::nsamples (the n of the whitening scale) depends on the records only. "
             "Not decided: orthonormality, ordering, spectral optimality, whitening covariance.",
     "design_ref": "DESIGN.md section 4, C18",
     "note": "Trusted: rustc resolution/typeck, the fact dump; the feature=blas branch cannot be built offline and is not analysed.",
@@ -196,6 +203,7 @@ CLAIMED["C13"] = {
             "pattern); the three support-vector predicates are one expression; every status-change test compares against a snapshot taken "
             "before the first write; running bounds that start at +/-infinity are tightened by min/max respectively and every "
             "branch of calculate_rho feeds y_i*G_i. The maintenance of gradient_fixed in update() ranges over all ntotal() positions (loop bounds and lengths of zipped kernel columns); a nu-classification hyperplane is rescaled with rho. "
+            "The training kernel matrix is filled from KernelMethod::distance, the function prediction evaluates, not from a separate expanded-square formula. "
             "Not decided: KKT conditions, rho, objective values.",
     "design_ref": "DESIGN.md section 4, C13",
     "note": "Trusted: rustc resolution/typeck, the fact dump; the index-space tags are inferred from the code's own swap(); sibling rules were confirmed against the reference SMO algorithm.",
@@ -212,6 +220,7 @@ CLAIMED["C14"] = {
             "through axis-aware accessors (no raw memory-order buffer without a layout test); the relative importances are a "
             "sequence divided by its own sum. Every weight_for(i) receives a row index (an enumerate() index taken before any filter/skip/rev of the sample sequence); gini and entropy compare a class weight with zero only (thresholds apply to proportions: scale invariance in the sample weights). "
             "A filtered sample sequence is never zipped with a per-sample container walked from its start; the arg-max over class weights compares them exactly (no rounding, integer conversion or tolerance); DecisionTreeParams' builder methods store the limits exactly as given. "
+            "No limit is compared through a truncating copy (`as usize`, round / floor). "
             "Not decided: impurity arithmetic, leaf majorities, importances.",
     "design_ref": "DESIGN.md section 4, C14",
     "note": "Trusted: rustc resolution/typeck, the fact dump.",
